@@ -29,6 +29,7 @@ type astInliner struct {
 	info  *types.Info
 	decls map[*types.Func]*ast.FuncDecl
 	n     int
+	multi bool // helperOf also accepts helpers with several results (only for `return h(args)`)
 }
 
 func newASTInliner(pkg *packages.Package) *astInliner {
@@ -76,7 +77,7 @@ func (in *astInliner) helperOf(call *ast.CallExpr) *ast.FuncDecl {
 		return nil
 	}
 	fd := in.decls[fn]
-	if fd == nil || fd.Type.Results == nil || fd.Type.Results.NumFields() != 1 {
+	if fd == nil || fd.Type.Results == nil || (fd.Type.Results.NumFields() != 1 && !in.multi) {
 		return nil
 	}
 	sig := fn.Type().(*types.Signature)
@@ -217,12 +218,14 @@ func (in *astInliner) Expand(fd *ast.FuncDecl) *ast.FuncDecl {
 		return fd
 	}
 	has := false
+	in.multi = true
 	ast.Inspect(fd.Body, func(x ast.Node) bool {
 		if c, ok := x.(*ast.CallExpr); ok && in.helperOf(c) != nil {
 			has = true
 		}
 		return !has
 	})
+	in.multi = false
 	if !has {
 		return fd
 	}
@@ -244,6 +247,33 @@ func (in *astInliner) expandOnce(fd *ast.FuncDecl) bool {
 	visitBlock = func(list []ast.Stmt) []ast.Stmt {
 		var out []ast.Stmt
 		for _, s := range list {
+			// `return h(args)` with a helper that returns several values in one statement: its results, substituted
+			if rs, ok := s.(*ast.ReturnStmt); ok && len(rs.Results) == 1 {
+				if call, ok := ast.Unparen(rs.Results[0]).(*ast.CallExpr); ok {
+					in.multi = true
+					h := in.helperOf(call)
+					in.multi = false
+					if h != nil && h.Type.Results.NumFields() > 1 && len(h.Body.List) == 1 {
+						if hr, ok := h.Body.List[0].(*ast.ReturnStmt); ok && len(hr.Results) == h.Type.Results.NumFields() {
+							subst := map[types.Object]ast.Expr{}
+							args := in.callArgs(h, call)
+							for i, p := range in.params(h) {
+								if obj := in.info.Defs[p]; obj != nil {
+									subst[obj] = args[i]
+								}
+							}
+							var res []ast.Expr
+							for _, e := range hr.Results {
+								res = append(res, in.clone(e, subst).(ast.Expr))
+							}
+							rs.Results = res
+							changed = true
+							out = append(out, rs)
+							continue
+						}
+					}
+				}
+			}
 			if rs, ok := s.(*ast.ReturnStmt); ok && len(rs.Results) >= 1 {
 				if call, ok := ast.Unparen(rs.Results[0]).(*ast.CallExpr); ok {
 					if h := in.helperOf(call); h != nil && !singleReturn(h) {
